@@ -74,6 +74,11 @@ class C13(conncheck.ConnCheck):
                     'app': ['send_text!fail'], 'depth': d if d is None else 3, 'max_dev': 2, 'strict': False})
         out.append({'name': 'ping-timeout', 'server': ['eof', 'silence', 'text', 'pong'], 'handshake': ['hs-ok'], 'depth': 5,
                     'connect': {'ping_timeout': 7, 'ping_rate': 0}, 'timers': 'absolute', 'drop': ()})
+        if tier == 'thorough':
+            out.append({'name': 'deflate', 'server': SERVER, 'handshake': ['hs-deflate'], 'depth': None})
+            out.append({'name': 'app-send', 'server': SERVER, 'handshake': ['hs-ok'], 'app': ['send_text'], 'depth': None, 'max_dev': 2})
+            out.append({'name': 'app-close-3001', 'server': SERVER + ['close-empty'], 'handshake': ['hs-with-frame'], 'app': ['close-3001'], 'depth': None,
+                        'max_dev': 2})
         out.append({'name': 'tls', 'server': SERVER, 'handshake': ['hs-ok'], 'depth': 3, 'url': 'wss://example.com/x'})
         out.append({'name': 'connect-fail', 'server': ['eof'], 'handshake': ['hs-ok'], 'depth': 1, 'refuse': True})
         return out
